@@ -14,17 +14,33 @@ namespace Mustache.Props.C07
 open Mustache.Versions
 
 /-- **C07.** In every reachable state: if `(e,c)` is pending for job `j`, `c` is in `j`'s check mask, and
-`e` currently sits (with component `c`) in an archetype having `j`'s required components, then the next
-run of `j` processes `e`. -/
+`e` currently sits (with component `c`) in an archetype having `j`'s required components and in a chunk
+the job's own constant archetype / chunk filters accept, then the next run of `j` processes `e`. -/
 theorem no_missed_write (cfg : Config) (hl : cfg.live = true) (ops : List Op)
     (j : Nat) (J : Job) (ai : Nat) (a : Arch) (i : Nat) (e : Ent) (c : Comp)
     (hj : (run cfg ops).jobs[j]? = some J) (ha : (run cfg ops).archs[ai]? = some a)
-    (he : a.ents[i]? = some e) (hreq : J.reqOk a = true) (hcc : c ∈ J.check) (hcm : c ∈ a.mask)
+    (he : a.ents[i]? = some e) (hreq : J.reqOk a = true) (hck : J.chunkOk (i / a.cs) = true)
+    (hcc : c ∈ J.check) (hcm : c ∈ a.mask)
     (hp : (run cfg ops).pending j e c = true) :
     e ∈ ((run cfg ops).jobRun j).2 := by
   have hinv := run_inv cfg hl ops
   rw [jobRun_snd hj, mem_procs hinv]
-  exact ⟨ai, a, i, ha, he, pending_procChunk hinv hj ha he hreq hcc hcm hp⟩
+  exact ⟨ai, a, i, ha, he, pending_procChunk hinv hj ha he hreq hck hcc hcm hp⟩
+
+/-- **C07 with job bodies that modify the world.** The same in every state reachable by a history whose
+runs have bodies — bodies that obtain other entities' components for writing, mark them dirty, or create /
+assign / remove / destroy through the command buffer applied when the run unlocks: what a body of `j`
+itself modifies is pending for `j` and is processed by `j`'s next run. -/
+theorem no_missed_write_with_bodies (cfg : Config) (hl : cfg.live = true) (hops : List HOp)
+    (j : Nat) (J : Job) (ai : Nat) (a : Arch) (i : Nat) (e : Ent) (c : Comp)
+    (hj : (hrun cfg hops).jobs[j]? = some J) (ha : (hrun cfg hops).archs[ai]? = some a)
+    (he : a.ents[i]? = some e) (hreq : J.reqOk a = true) (hck : J.chunkOk (i / a.cs) = true)
+    (hcc : c ∈ J.check) (hcm : c ∈ a.mask)
+    (hp : (hrun cfg hops).pending j e c = true) :
+    e ∈ ((hrun cfg hops).jobRun j).2 := by
+  obtain ⟨ops, hops'⟩ := hrun_reachable cfg hops
+  rw [hops'] at hj ha hp ⊢
+  exact no_missed_write cfg hl ops j J ai a i e c hj ha he hreq hck hcc hcm hp
 
 /-- **C07, history form.** Once `(e,c)` is pending for `j`, whatever happens afterwards — `world.update()`,
 runs of other jobs, further accesses, structural changes, in any order — short of a run of `j` itself, the
@@ -34,9 +50,10 @@ theorem no_missed_write_history (cfg : Config) (hl : cfg.live = true) (ops1 ops2
     (hp : (run cfg ops1).pending j e c = true) (hops : ∀ op ∈ ops2, op ≠ .run j)
     (J : Job) (ai : Nat) (a : Arch) (i : Nat)
     (hj : (run cfg (ops1 ++ ops2)).jobs[j]? = some J) (ha : (run cfg (ops1 ++ ops2)).archs[ai]? = some a)
-    (he : a.ents[i]? = some e) (hreq : J.reqOk a = true) (hcc : c ∈ J.check) (hcm : c ∈ a.mask) :
+    (he : a.ents[i]? = some e) (hreq : J.reqOk a = true) (hck : J.chunkOk (i / a.cs) = true)
+    (hcc : c ∈ J.check) (hcm : c ∈ a.mask) :
     e ∈ ((run cfg (ops1 ++ ops2)).jobRun j).2 := by
-  refine no_missed_write cfg hl (ops1 ++ ops2) j J ai a i e c hj ha he hreq hcc hcm ?_
+  refine no_missed_write cfg hl (ops1 ++ ops2) j J ai a i e c hj ha he hreq hck hcc hcm ?_
   rw [run_append]
   exact exec_pending_mono _ ops2 j e c hops hp
 
@@ -76,7 +93,7 @@ theorem pending_after_create (s : State) (m : List Comp) (e : Ent) (c : Comp) (j
     simp only [hg, Out.created.injEq] at hw ⊢
     subst hw
     have hge := hg
-    unfold State.getArch at hge
+    unfold State.getArch State.getArchClosed at hge
     have hex : ∃ a, s1.archs[ai]? = some a := by
       split at hge
       · next ai' hf =>
@@ -94,7 +111,7 @@ theorem pending_after_create (s : State) (m : List Comp) (e : Ent) (c : Comp) (j
 
 theorem getArch_valid {s s1 : State} {m : List Comp} {aj : Nat} (hg : s.getArch m = .ok (s1, aj)) :
     aj < s1.archs.length := by
-  unfold State.getArch at hg
+  unfold State.getArch State.getArchClosed at hg
   split at hg
   · next ai' hf =>
     simp only [Except.ok.injEq, Prod.mk.injEq] at hg
@@ -114,8 +131,9 @@ theorem depart_length (s : State) (ai i : Nat) : (s.depart ai i).archs.length = 
 
 /-- move between archetypes (`assign` / `removeComponent`): every component of the moved entity is
 pending for every job -/
-theorem pending_after_move (s : State) (ai i : Nat) (e : Ent) (m : List Comp) (c : Comp) (j : Nat)
-    (hw : (s.moveTo ai i e m).2 = .ok) : (s.moveTo ai i e m).1.pending j e c = true := by
+theorem pending_after_move (s : State) (ai i : Nat) (e : Ent) (m : List Comp) (same : Out) (c : Comp) (j : Nat)
+    (hne : same ≠ .ok)
+    (hw : (s.moveTo ai i e m same).2 = .ok) : (s.moveTo ai i e m same).1.pending j e c = true := by
   unfold State.moveTo at hw ⊢
   cases hg : s.getArch m with
   | error p => simp [hg] at hw
@@ -124,7 +142,11 @@ theorem pending_after_move (s : State) (ai i : Nat) (e : Ent) (m : List Comp) (c
     simp only
     have hlt : aj < (s1.depart ai i).archs.length := by rw [depart_length]; exact getArch_valid hg
     obtain ⟨a, ha⟩ : ∃ a, (s1.depart ai i).archs[aj]? = some a := ⟨_, List.getElem?_eq_getElem hlt⟩
-    simp only [State.arrive, ha, if_true]
+    simp only [hg] at hw
+    by_cases hsame : aj = ai
+    · simp [hsame] at hw
+      exact absurd hw hne
+    · simp only [hsame, if_false, State.arrive, ha, if_true]
 
 /-- relocation by a removal: the entity moved into the hole is pending for every job -/
 theorem pending_after_relocation (s : State) (ai i : Nat) (a : Arch) (e' : Ent) (c : Comp) (j : Nat)
@@ -146,7 +168,7 @@ theorem pending_after_other_job (s : State) (k j : Nat) (K : Job) (e : Ent) (c :
 /-! ### non-vacuity -/
 
 /-- job 0 requires and checks component 0; job 1 writes component 0 -/
-def cfgEx : Config := { jobs := [⟨[0], [0], []⟩, ⟨[0], [], [0]⟩] }
+def cfgEx : Config := { jobs := [{ req := [0], check := [0], upd := [] }, { req := [0], check := [], upd := [0] }] }
 
 /-- `update; run; getComponent (mutable); run` — the history the pinned tree gets wrong: in the model
 (and on the repaired tree) the second run processes the entity -/
@@ -158,8 +180,9 @@ job's run and a relocation by removal -/
 example : let s := run cfgEx [.create [0], .create [0], .create [0], .run 0, .getMut 2 0, .update,
                              .run 1, .destroyNow 0, .update]
     (∃ J a, s.jobs[0]? = some J ∧ s.archs[0]? = some a ∧ a.ents[0]? = some 2 ∧ J.reqOk a = true ∧
-      0 ∈ J.check ∧ 0 ∈ a.mask ∧ s.pending 0 2 0 = true) ∧ (s.jobRun 0).2 = [2, 1] := by
-  refine ⟨⟨_, _, rfl, rfl, ?_, ?_, ?_, ?_, ?_⟩, ?_⟩ <;> decide
+      J.chunkOk (0 / a.cs) = true ∧ 0 ∈ J.check ∧ 0 ∈ a.mask ∧ s.pending 0 2 0 = true) ∧
+    (s.jobRun 0).2 = [2, 1] := by
+  refine ⟨⟨_, _, rfl, rfl, ?_, ?_, ?_, ?_, ?_, ?_⟩, ?_⟩ <;> decide
 
 /-- **The defect of the pinned tree, as a statement about the model.** With the stamping version cached in
 the manager and refreshed only by `update()` (`live := false`), the four-operation history leaves a pending
@@ -167,10 +190,10 @@ write that the next run of the job misses. -/
 theorem cached_stamp_misses_write :
     ∃ (cfg : Config) (ops : List Op) (j : Nat) (J : Job) (ai : Nat) (a : Arch) (i e c : Nat),
       cfg.live = false ∧ (run cfg ops).jobs[j]? = some J ∧ (run cfg ops).archs[ai]? = some a ∧
-      a.ents[i]? = some e ∧ J.reqOk a = true ∧ c ∈ J.check ∧ c ∈ a.mask ∧
+      a.ents[i]? = some e ∧ J.reqOk a = true ∧ J.chunkOk (i / a.cs) = true ∧ c ∈ J.check ∧ c ∈ a.mask ∧
       (run cfg ops).pending j e c = true ∧ e ∉ ((run cfg ops).jobRun j).2 := by
-  refine ⟨{ jobs := [⟨[0], [0], []⟩], live := false },
-    [.create [0], .update, .run 0, .getMut 0 0], 0, _, 0, _, 0, 0, 0, rfl, rfl, rfl, ?_, ?_, ?_, ?_, ?_, ?_⟩
+  refine ⟨{ jobs := [{ req := [0], check := [0], upd := [] }], live := false },
+    [.create [0], .update, .run 0, .getMut 0 0], 0, _, 0, _, 0, 0, 0, rfl, rfl, rfl, ?_, ?_, ?_, ?_, ?_, ?_, ?_⟩
     <;> decide
 
 end Mustache.Props.C07
